@@ -129,6 +129,17 @@ protected:
     virtual void
     evaluateAVTs(
             StylesheetExecutionContext&         executionContext) const;
+
+    /**
+     * Determine if this is an xsl:element that creates no element, because
+     * its name is illegal.  Its attribute sets are not used then.
+     *
+     * @param executionContext  context to execute this element
+     * @returns true if no element was created
+     */
+    bool
+    isElementSkipped(
+            StylesheetExecutionContext&         executionContext) const;
 #else
     /** 
      * Execute and conditionally apply any attribute sets.  To be used
